@@ -19,6 +19,7 @@ import (
 	"reflect"
 	"strconv"
 	"strings"
+	"sync"
 	"sync/atomic"
 	"time"
 	"unsafe"
@@ -48,6 +49,8 @@ type PersistOptions struct {
 	replicationMode atomic.Value
 	labelProperty   atomic.Value
 	clusterVersion  unsafe.Pointer
+	// persistMu serializes Persist: the image that is saved last must be the one that was taken last.
+	persistMu sync.Mutex
 }
 
 // NewPersistOptions creates a new PersistOptions instance.
@@ -560,6 +563,10 @@ func (o *PersistOptions) DeleteLabelProperty(typ, labelKey, labelValue string) {
 
 // Persist saves the configuration to the storage.
 func (o *PersistOptions) Persist(storage *core.Storage) error {
+	// Two concurrent calls must not save their images in the reverse order of taking them,
+	// or the older image overwrites an update that was already served and persisted.
+	o.persistMu.Lock()
+	defer o.persistMu.Unlock()
 	cfg := &Config{
 		Schedule:        *o.GetScheduleConfig(),
 		Replication:     *o.GetReplicationConfig(),
